@@ -280,11 +280,11 @@ void disasm_range_86000(
 
     if (cycles_min < 0)
     {
-      printf("?");
+      printf("?\n");
     }
       else
     {
-      printf("%d", cycles_min);
+      printf("%d\n", cycles_min);
     }
 
     start += count;
